@@ -19,11 +19,13 @@ type c13Case struct {
 	Upgrade    []string `json:"upgrade"`
 	AcceptKind string   `json:"accept"` // correct | other-key | missing | garbage
 	Proto      string   `json:"protocol"`
-	Requested  []string `json:"requested"`
-	Ext        []string `json:"extensions"`
-	Mode       int      `json:"mode"`
-	HostOpt    string   `json:"host_option,omitempty"`
-	ExtraHdr   string   `json:"extra_header,omitempty"`
+	// ProtoMore: further Sec-WebSocket-Protocol header lines after Proto (only used with a first line that was not requested)
+	ProtoMore []string `json:"protocol_more_lines,omitempty"`
+	Requested []string `json:"requested"`
+	Ext       []string `json:"extensions"`
+	Mode      int      `json:"mode"`
+	HostOpt   string   `json:"host_option,omitempty"`
+	ExtraHdr  string   `json:"extra_header,omitempty"`
 }
 
 func (c *c13Case) want() bool {
@@ -71,6 +73,9 @@ func runC13Case(rep *Report, c *c13Case, ent []byte, lines, expect, what *[]stri
 		}
 		if c.Proto != "" {
 			h.Set("Sec-WebSocket-Protocol", c.Proto)
+			for _, v := range c.ProtoMore {
+				h.Add("Sec-WebSocket-Protocol", v)
+			}
 		}
 		for _, v := range c.Ext {
 			h.Add("Sec-WebSocket-Extensions", v)
@@ -162,14 +167,15 @@ func runC13Case(rep *Report, c *c13Case, ent []byte, lines, expect, what *[]stri
 
 func runC13(ctx *runCtx) {
 	rep := ctx.rep
-	rep.Rule = "responses from the cross product status x Connection/Upgrade value lists x accept-key variants (correct, for another key, missing, garbage) x subprotocol value x requested lists x extension header variants x client compression modes, returned by a custom RoundTripper; the request seen by the RoundTripper is inspected " +
+	rep.Rule = "responses from the cross product status x Connection/Upgrade value lists x accept-key variants (correct, for another key, missing, garbage) x subprotocol value (single names, other case, lists, trailing commas, look-alikes, several header lines) x requested lists x extension header variants x client compression modes, returned by a custom RoundTripper; the request seen by the RoundTripper is inspected " +
 		"(GET, headers, version 13, key = base64 of the next 16 entropy bytes, subprotocols, extension offer per mode, Host override, caller headers, ws->http scheme); Dial must return a connection iff the response is valid. Lean model of verifyServerResponse compared. distinct = case tuple"
 	rng := newRng(ctx.seed, "c13")
 	statuses := []int{101, 101, 101, 200, 400, 426, 301}
 	conns := [][]string{{"Upgrade"}, {"upgrade"}, {"keep-alive, Upgrade"}, {"keep-alive"}, nil, {"Upgradex"}}
 	upgs := [][]string{{"websocket"}, {"WebSocket"}, {"websocket, h2c"}, {"websockets"}, nil}
 	accepts := []string{"correct", "correct", "correct", "other-key", "missing", "garbage"}
-	protos := []string{"", "", "chat", "CHAT", "other"}
+	// the value as a whole must be one requested name: lists, trailing commas and look-alikes are not
+	protos := []string{"", "", "chat", "CHAT", "other", "evil, chat", "chat, evil", "chat,", ",chat", "chat evil", "chatx", "superchat,chat"}
 	reqs := [][]string{nil, {"chat"}, {"superchat", "chat"}}
 	exts := [][]string{nil, nil, {"permessage-deflate"}, {"permessage-deflate; client_no_context_takeover"}, {"permessage-deflate; server_no_context_takeover; client_no_context_takeover"},
 		{"permessage-deflate; server_max_window_bits=10"}, {"permessage-deflate; client_max_window_bits=10"}, {"permessage-deflate; foo"}, {"x-webkit-deflate-frame"}, {"permessage-deflate", "permessage-deflate"}, {"permessage-deflate, foo"}}
@@ -189,6 +195,11 @@ func runC13(ctx *runCtx) {
 				cases = append(cases, &c13Case{Status: 101, Connection: conns[0], Upgrade: upgs[0], AcceptKind: ak, Proto: pr, Requested: rq})
 			}
 		}
+	}
+	for _, rq := range reqs {
+		// several header lines, the first of which was not requested
+		cases = append(cases, &c13Case{Status: 101, Connection: conns[0], Upgrade: upgs[0], AcceptKind: "correct", Proto: "evil", ProtoMore: []string{"chat"}, Requested: rq})
+		cases = append(cases, &c13Case{Status: 101, Connection: conns[0], Upgrade: upgs[0], AcceptKind: "correct", Proto: "evil", ProtoMore: []string{"superchat", "chat"}, Requested: rq})
 	}
 	for _, ex := range exts {
 		for mode := 0; mode <= 2; mode++ {
